@@ -12,8 +12,9 @@ import (
 
 func init() {
 	register(&Check{
-		ID:    "C18",
-		Level: "exploration",
+		ID:        "C18",
+		DeepQuick: true,
+		Level:     "exploration",
 		Rule: "(a) a fixed family of Go types (every int/uint width, float32/64, string, bool, slices, nested slices, string maps, tagged structs, nested structs, pointers at every level, cty.Value fields, arrays, *big.Int / *big.Float) x generated Go values (zero, boundary, nil and empty forms): ToCtyValue against ImpliedType (or the corresponding list / number type for arrays and big numbers) then FromCtyValue must reproduce the Go value; " +
 			"(b) every number of the full alphabet plus every integer-width boundary and its neighbours, fractions, huge and infinite numbers x 14 Go numeric target types: decoding succeeds exactly when the number is representable and stores it; " +
 			"(c) every value of a bounded cty universe (known, null, unknown, DynamicVal) x every target type of the family: never a panic, and unknown / null-into-non-nilable / shape mismatches are errors; (d) one-deviation family: the cty counterpart of every family value with exactly one position (root or nested, depth <= 3) replaced by a null / unknown of its own type or a null / known value of 12 other types: refused wherever a reference walk over (value, Go type) finds an unknown, a null whose type is not the counterpart of the nilable target, a kind mismatch or an array-length mismatch; accepted decodes are mirrored back; (e) reused targets: every ordered pair (triple for families of <= 4 values) of values of one Go type decoded one after the other into one target (maps losing keys, shrinking slices, pointers becoming nil, nested): after each decode the target holds exactly what a fresh target would; distinct by (Go type, value) / (number, target) / (cty value, target); non-trivial = every case",
